@@ -131,7 +131,7 @@ func c04(args []string) {
 		cfgs := []Cfg{
 			{Buf: b, Procs: 4, Sched: fmt.Sprintf("%d,300,400", rng.Intn(1<<30)), MaxTasks: mt},
 			{Buf: b + 2, Procs: 1, Sched: fmt.Sprintf("%d,500,1500", rng.Intn(1<<30)), MaxTasks: mc},
-			{Buf: 128, Procs: 2, Sched: "", MaxTasks: 8},
+			{Buf: 128, Procs: 2, Sched: "", MaxTasks: 8, NoHooks: true}, // the plain library: hooks passive, nothing orders the goroutines
 			// the same graph with the (reference) outputs of a pseudo-random subset of tasks already on disk:
 			// the result must not depend on which tasks are taken from disk either
 			{Buf: b, Procs: 4, Sched: fmt.Sprintf("%d,300,400", rng.Intn(1<<30)), MaxTasks: mt, Crash: fmt.Sprintf("preexisting:%d", rng.Intn(1<<30))},
